@@ -70,9 +70,16 @@ func (x *Exec) evalClause(st *State, c *Clause, env *Env) string {
 }
 
 func (x *Exec) evalBool(env *Env, c *Clause) (res string) {
+	mark := -1
+	if env.st != nil {
+		mark = len(env.st.pc)
+	}
 	defer func() {
 		if r := recover(); r != nil {
 			if ee, ok := r.(evalError); ok {
+				if mark >= 0 && env.st != nil && len(env.st.pc) > mark {
+					env.st.pc = env.st.pc[:mark]
+				}
 				x.bindErrors = append(x.bindErrors, fmt.Sprintf("%s:%d: %s: %s", c.File, c.Line, c.Src, ee.msg))
 				res = "false"
 				return
@@ -90,9 +97,14 @@ func (x *Exec) evalBool(env *Env, c *Clause) (res string) {
 // evalBoolAtCall evaluates a callee postcondition at a call site; ok=false when it refers to an identifier that
 // only exists inside the callee.
 func (x *Exec) evalBoolAtCall(env *Env, c *Clause) (res string, ok bool) {
+	mark := len(env.st.pc)
 	defer func() {
 		if r := recover(); r != nil {
 			if ee, isEE := r.(evalError); isEE {
+				// side assumptions made before the evaluation failed (possibly under a binder) are discarded
+				if len(env.st.pc) > mark {
+					env.st.pc = env.st.pc[:mark]
+				}
 				if strings.HasPrefix(ee.msg, "unknown identifier") {
 					res, ok = "true", false
 					return
@@ -873,6 +885,18 @@ func (e *Env) call(n *ast.CallExpr) *Value {
 		}
 		t := e.typeExpr(n.Args[1])
 		return boolLeaf(fmt.Sprintf("(= %s %s)", v.Fs[0].Term, x.tagOf(t)))
+	case "fresh":
+		// fresh(x): the object x refers to (a pointer, or the backing array of a slice) did not exist in the pre-state
+		v := e.eval(n.Args[0])
+		ts := x.flatten(v)
+		if len(ts) == 0 || e.old == nil {
+			e.fail("fresh: unsupported argument")
+		}
+		at := e.old.allocT
+		if at == "" {
+			at = "alloc0"
+		}
+		return boolLeaf(fmt.Sprintf("(or (= %s 0) (not (select %s %s)))", ts[0], at, ts[0]))
 	case "sends":
 		// sends(ch): number of sends on channel ch performed so far by the function
 		ch := e.eval(n.Args[0])
